@@ -33,10 +33,12 @@ class Stores(V.Family):
         "quick": dict(mc=[("StoresMC.tla", "Stores_quick.cfg"), ("StoresMC.tla", "Stores_quick_aud.cfg"),
                           ("StoresMC.tla", "Stores_quick_est.cfg"), ("StoresMC.tla", "Stores_quick_env.cfg"),
                           ("StoresMC.tla", "Stores_quick_idcfg.cfg")], mc_timeout=600,
-                      sim=("StoresMC.tla", "Stores_sim.cfg", 40, 26), sim_keep=60, nrand=60, shards=6),
+                      mc_heavy=("Stores_quick_est.cfg",),
+                      sim=("StoresMC.tla", "Stores_sim.cfg", 40, 26), sim_keep=60, nrand=90, shards=8),
         "thorough": dict(mc=[("StoresMC.tla", "Stores_thorough.cfg"), ("StoresMC.tla", "Stores_thorough_aud.cfg"),
                              ("StoresMC.tla", "Stores_thorough_est.cfg"), ("StoresMC.tla", "Stores_thorough_env.cfg"),
                              ("StoresMC.tla", "Stores_thorough_id.cfg"), ("StoresMC.tla", "Stores_thorough_cfg.cfg")], mc_timeout=3000,
+                         mc_heavy=("Stores_thorough_est.cfg", "Stores_thorough_env.cfg"),
                          sim=("StoresMC.tla", "Stores_sim.cfg", 700, 26), sim_keep=1200, nrand=1500, shards=14),
     }
 
@@ -117,4 +119,37 @@ def run(pid, tier, seed, replay=None):
         #   VERIF_STORES_DEV='{"PrefixAlias", "Exact:aud.listByEpoch", "Exact:est.list"}'
         F.monitor_constants = {"Dev": os.environ["VERIF_STORES_DEV"]}
     V.spec_dir()      # populate the scratch copy of the specs before the monitor threads race for it
+    mcs = F.tiers[tier].get("mc", [])
+    if replay is None and len(mcs) > 1:
+        # S1 consists of independent configurations (one per sub-store); run_family checks them one after the other,
+        # each paying TLC's start-up.  Run them side by side and hand the results to run_family in its own order.
+        import concurrent.futures as cf
+        import time
+        orig = V.tlc_modelcheck
+        timeout = F.tiers[tier].get("mc_timeout", 900)
+        heavy = F.tiers[tier].get("mc_heavy", ())
+        # the big configurations start first and get more workers; at most 3 TLC processes at a time in the thorough
+        # tier (every TLC process reserves memory in proportion to its 25 %-of-RAM heap), 5 in quick
+        order = sorted(range(len(mcs)), key=lambda i: (mcs[i][1] not in heavy, i))
+        slots = min(len(mcs), 5 if tier == "quick" else 3)
+
+        def one(k):
+            i = order[k]
+            time.sleep(0.4 * (k % 5))    # V.tlc numbers its metadirs with an unlocked counter
+            w = 6 if mcs[i][1] in heavy else max(2, min(4, V.NCPU // slots))
+            try:
+                return i, orig(mcs[i][0], mcs[i][1], timeout=timeout, workers=w)
+            except Exception as e:       # re-raised when run_family asks for this configuration
+                return i, e
+        with cf.ThreadPoolExecutor(max_workers=slots) as ex:
+            res = {mcs[i]: r for i, r in ex.map(one, range(len(mcs)))}
+
+        def prefetched(module, c, timeout=900, workers=None, cfg_text=None):
+            r = res.get((module, c))
+            if r is None:
+                return orig(module, c, timeout=timeout, workers=workers, cfg_text=cfg_text)
+            if isinstance(r, Exception):
+                raise r
+            return r
+        V.tlc_modelcheck = prefetched
     return V.run_family(F, pid, tier, seed, replay)
